@@ -410,11 +410,11 @@ def main(argv):
         print("VIOLATION property=%s replay=%s" % (pid, replay_path))
         rc = 1
     elif proof_broken or mismatches:
-        items = [case_json(c, o, {"model": m}) for c, o, m in shrink_pick(h, mismatches)[:10]]
+        items = [case_json(c, o, {"model": str(m)[:4000]}) for c, o, m in shrink_pick(h, mismatches)[:10]]
         broken = list(proof_broken)
         if mismatches:
             broken.append("correspondence: model and implementation differ on %d of %d compared inputs (first: %s impl=%s model=%s)" %
-                          (len(mismatches), len(model_obs), human(mismatches[0][0]), human_obs(mismatches[0][1]), mismatches[0][2]))
+                          (len(mismatches), len(model_obs), human(mismatches[0][0]), human_obs(mismatches[0][1]), str(mismatches[0][2])[:200]))
         replay_path = write_replay(pid, seed, tier, "unproved", items, broken)
         for b in broken:
             print("no longer checks: " + b)
